@@ -7,6 +7,7 @@ import (
 	"fmt"
 	"math/big"
 	"os"
+	"runtime/debug"
 	"sort"
 	"strings"
 	"sync"
@@ -50,7 +51,8 @@ var (
 	c04T1, _ = ledger.ParseTime("2023-05-06T07:08:09.123456Z")
 	c04T2, _ = ledger.ParseTime("2023-05-07T00:00:00Z")
 	c04TOff  = func() ledger.Time { t, _ := ledger.ParseTime("2023-05-06T09:30:00+02:00"); return t }()
-	c04Base  = time.Date(2024, 1, 1, 0, 0, 0, 0, time.UTC)
+	// log entries are inserted from 07:00:00 on, one second apart: t0 is back-dated, t1 / the offset one slightly ahead, t2 far ahead
+	c04Base = time.Date(2023, 5, 6, 7, 0, 0, 0, time.UTC)
 )
 
 func nextTxID(logs []*ledger.ChainedLog) *big.Int {
@@ -140,6 +142,9 @@ func c04Ops(thorough bool) []c04Op {
 	} else {
 		ops = append(ops, tx("tx n->n 2 (self transfer, new account)", "l1", c04T1, metadata.Metadata{}, nil, false, p("n", "n", "X", 2)))
 	}
+	ops = append(ops, tx("tx world->a X 1, world->a Y 1 (two assets)", "l1", c04T1, metadata.Metadata{}, nil, false, p("world", "a", "X", 1), p("world", "a", "Y/2", 1)))
+	if false {
+	}
 	return ops
 }
 
@@ -186,12 +191,50 @@ func (st *c04State) apply(op c04Op) (*c04State, string) {
 
 type moveKey struct{ acc, asset string }
 
+// txAt: what the log says about transaction id as of pit (nil = now): visible from its timestamp on, reverted from the
+// reverting transaction's timestamp on, metadata = creation metadata plus the metadata entries dated up to pit.
+func txAt(logs []*ledger.ChainedLog, id string, pit *ledger.Time) (visible, reverted bool, md metadata.Metadata, tx *ledger.Transaction) {
+	upTo := pitOrMax(pit)
+	for _, l := range logs {
+		switch p := l.Data.(type) {
+		case ledger.NewTransactionLogPayload:
+			if p.Transaction.ID.String() == id {
+				tx = p.Transaction
+				visible = !tx.Timestamp.Time.After(upTo)
+				md = tx.Metadata.Copy()
+			}
+		case ledger.RevertedTransactionLogPayload:
+			if p.RevertTransaction.ID.String() == id {
+				tx = p.RevertTransaction
+				visible = !tx.Timestamp.Time.After(upTo)
+				md = tx.Metadata.Copy()
+			}
+			if p.RevertedTransactionID.String() == id && !p.RevertTransaction.Timestamp.Time.After(upTo) {
+				reverted = true
+			}
+		case ledger.SetMetadataLogPayload:
+			if p.TargetType == ledger.MetaTargetTypeTransaction && fmt.Sprint(p.TargetID) == id && !l.Date.Time.After(upTo) {
+				for k, v := range p.Metadata {
+					md[k] = v
+				}
+			}
+		case ledger.DeleteMetadataLogPayload:
+			if p.TargetType == ledger.MetaTargetTypeTransaction && fmt.Sprint(p.TargetID) == id && !l.Date.Time.After(upTo) {
+				delete(md, p.Key)
+			}
+		}
+	}
+	return
+}
+
 // expected moves of one ledger: in log order, source then destination per posting
 type expMove struct {
 	acc, asset string
 	amt        *big.Int
 	isSource   bool
 	eff        time.Time
+	ins        time.Time // date of the log entry that produced it
+	tx         string    // id of the transaction it belongs to
 }
 
 func expectedMoves(logs []*ledger.ChainedLog) []expMove {
@@ -209,7 +252,7 @@ func expectedMoves(logs []*ledger.ChainedLog) []expMove {
 		}
 		eff := tx.Timestamp.Time.UTC()
 		for _, p := range tx.Postings {
-			out = append(out, expMove{p.Source, p.Asset, p.Amount, true, eff}, expMove{p.Destination, p.Asset, p.Amount, false, eff})
+			out = append(out, expMove{p.Source, p.Asset, p.Amount, true, eff, l.Date.Time.UTC(), tx.ID.String()}, expMove{p.Destination, p.Asset, p.Amount, false, eff, l.Date.Time.UTC(), tx.ID.String()})
 		}
 	}
 	return out
@@ -234,7 +277,7 @@ func colIndex(cols []string) map[string]int {
 }
 
 // judge one state: returns (kind, explanation) of the first disagreement with the fold of the logs.
-func (st *c04State) judge() (string, string) {
+func (st *c04State) judge(withPIT bool) (string, string) {
 	ctx := context.Background()
 	for _, ldg := range []string{"l1", "l2"} {
 		logs := st.logs[ldg]
@@ -313,8 +356,21 @@ func (st *c04State) judge() (string, string) {
 		}
 		// ---- (b) reads through the repository's Go code
 		s := st.store(ldg)
-		bad := func() (string, string) {
+		bad := func() (kind, why string) {
 			defer s.GetDB().Close()
+			defer func() {
+				if r := recover(); r != nil {
+					st := string(debug.Stack())
+					where := ""
+					for _, ln := range strings.Split(st, "\n") {
+						if strings.Contains(ln, "/repo/internal/storage/ledgerstore/") {
+							where = strings.TrimSpace(ln)
+							break
+						}
+					}
+					kind, why = "read-panic", fmt.Sprintf("ledger %s: a read method panics: %v (%s)", ldg, r, where)
+				}
+			}()
 			for k := range runIn {
 				got, err := s.GetBalance(ctx, k.acc, k.asset)
 				if err != nil {
@@ -394,6 +450,232 @@ func (st *c04State) judge() (string, string) {
 				}
 				if want := fold.AccountMeta(a); !metaEqual(got.Metadata, want) {
 					return "account-metadata", fmt.Sprintf("ledger %s: GetAccount(%s).metadata = %v, replaying the log gives %v", ldg, a, got.Metadata, want)
+				}
+			}
+			// volumes through the read API: current, as of a past instant (by insertion date), and by effective date
+			var pits []*ledger.Time
+			pits = append(pits, nil)
+			extra := []time.Time{c04T0.Time.Add(-time.Hour), c04T0.Time.Add(time.Minute), c04T1.Time, c04T2.Time.Add(time.Hour)}
+			if !withPIT {
+				extra = nil
+			}
+			for _, t := range extra {
+				t := ledger.Time{Time: t}
+				pits = append(pits, &t)
+			}
+			for i := range logs {
+				if !withPIT {
+					break
+				}
+				t := ledger.Time{Time: logs[i].Date.Time.Add(500 * time.Millisecond)}
+				pits = append(pits, &t)
+			}
+			for _, pit := range pits {
+				for a := range accs {
+					q := ledgerstore.NewGetAccountQuery(a)
+					q.PIT = pit
+					q.ExpandVolumes, q.ExpandEffectiveVolumes = true, true
+					got, err := s.GetAccountWithVolumes(ctx, q)
+					if err != nil {
+						return "read-error", "GetAccountWithVolumes: " + err.Error()
+					}
+					wantV, wantE := map[string][2]*big.Int{}, map[string][2]*big.Int{}
+					// an account exists from the first log entry that touches it (the point-in-time listing filters on that)
+					visible := pit == nil
+					for _, e := range exp {
+						if e.acc == a && !e.ins.After(pitOrMax(pit)) {
+							visible = true
+						}
+					}
+					for _, l := range logs {
+						if l.Date.Time.After(pitOrMax(pit)) {
+							continue
+						}
+						switch p := l.Data.(type) {
+						case ledger.NewTransactionLogPayload:
+							if _, ok := p.AccountMetadata[a]; ok {
+								visible = true
+							}
+						case ledger.SetMetadataLogPayload:
+							if p.TargetType == ledger.MetaTargetTypeAccount && fmt.Sprint(p.TargetID) == a {
+								visible = true
+							}
+						}
+					}
+					add := func(m map[string][2]*big.Int, e expMove) {
+						v, ok := m[e.asset]
+						if !ok {
+							v = [2]*big.Int{new(big.Int), new(big.Int)}
+						}
+						if e.isSource {
+							v[1] = new(big.Int).Add(v[1], e.amt)
+						} else {
+							v[0] = new(big.Int).Add(v[0], e.amt)
+						}
+						m[e.asset] = v
+					}
+					for _, e := range exp {
+						if e.acc != a {
+							continue
+						}
+						if !visible {
+							continue
+						}
+						if pit == nil || !e.ins.After(pit.Time) {
+							add(wantV, e)
+						}
+						if pit == nil || !e.eff.After(pit.Time) {
+							add(wantE, e)
+						}
+					}
+					cmp := func(kind string, gotM ledger.VolumesByAssets, want map[string][2]*big.Int) (string, string) {
+						for asset, w := range want {
+							g := gotM[asset]
+							if g == nil || g.Input == nil || g.Output == nil || g.Input.Cmp(w[0]) != 0 || g.Output.Cmp(w[1]) != 0 {
+								return kind, fmt.Sprintf("ledger %s: account %s %s at %v: the read API reports %v for %s, replaying the log gives input=%s output=%s", ldg, a, kind, pitStr(pit), g, asset, w[0], w[1])
+							}
+						}
+						for asset, g := range gotM {
+							if _, ok := want[asset]; !ok && g != nil && (g.Input.Sign() != 0 || g.Output.Sign() != 0) {
+								return kind, fmt.Sprintf("ledger %s: account %s %s at %v: the read API reports %v for %s, the log has no such movement yet", ldg, a, kind, pitStr(pit), g, asset)
+							}
+						}
+						return "", ""
+					}
+					if k, w := cmp("api-volumes", got.Volumes, wantV); w != "" {
+						return k, w
+					}
+					if k, w := cmp("api-effective-volumes", got.EffectiveVolumes, wantE); w != "" {
+						return k, w
+					}
+				}
+				// transactions as of the instant: visible from their timestamp on, reverted once the reverting transaction's
+				// timestamp is reached, metadata as of the log entries dated up to the instant; expanded volumes are those
+				// after the transaction's last move on each account (by insertion, and by effective date)
+				for _, id := range fold.TxIDs() {
+					bid, _ := new(big.Int).SetString(id, 10)
+					q := ledgerstore.NewGetTransactionQuery(bid).WithExpandVolumes().WithExpandEffectiveVolumes()
+					q.PIT = pit
+					got, err := s.GetTransactionWithVolumes(ctx, q)
+					vis, rev, md, cur := txAt(logs, id, pit)
+					if !vis {
+						if err == nil {
+							return "pit-transaction", fmt.Sprintf("ledger %s: transaction %s (timestamp %s) is reported as of %s, before it takes effect", ldg, id, cur.Timestamp.Time.UTC().Format(time.RFC3339Nano), pitStr(pit))
+						}
+						continue
+					}
+					if err != nil {
+						return "read-error", fmt.Sprintf("GetTransactionWithVolumes(%s) at %s: %v", id, pitStr(pit), err)
+					}
+					if fmt.Sprint(got.Postings) != fmt.Sprint(cur.Postings) || got.Reference != cur.Reference || !got.Timestamp.Time.Equal(cur.Timestamp.Time) {
+						return "pit-transaction", fmt.Sprintf("ledger %s: transaction %s as of %s = %+v, the log defines %+v", ldg, id, pitStr(pit), got.Transaction, cur)
+					}
+					if got.Reverted != rev {
+						return "pit-reverted", fmt.Sprintf("ledger %s: transaction %s as of %s is reported reverted=%v, replaying the log entries up to that instant gives reverted=%v", ldg, id, pitStr(pit), got.Reverted, rev)
+					}
+					if !metaEqual(got.Metadata, md) {
+						return "pit-transaction-metadata", fmt.Sprintf("ledger %s: transaction %s as of %s has metadata %v, replaying the log entries up to that instant gives %v", ldg, id, pitStr(pit), got.Metadata, md)
+					}
+					// expected post-commit volumes
+					wantPC, wantPCE := map[moveKey][2]*big.Int{}, map[moveKey][2]*big.Int{}
+					for i, e := range exp {
+						if e.tx != id {
+							continue
+						}
+						k := moveKey{e.acc, e.asset}
+						vi, vo, ei, eo := new(big.Int), new(big.Int), new(big.Int), new(big.Int)
+						for j, e2 := range exp {
+							if e2.acc != e.acc || e2.asset != e.asset {
+								continue
+							}
+							if j <= i {
+								if e2.isSource {
+									vo.Add(vo, e2.amt)
+								} else {
+									vi.Add(vi, e2.amt)
+								}
+							}
+							if e2.eff.Before(e.eff) || (e2.eff.Equal(e.eff) && j <= i) {
+								if e2.isSource {
+									eo.Add(eo, e2.amt)
+								} else {
+									ei.Add(ei, e2.amt)
+								}
+							}
+						}
+						wantPC[k], wantPCE[k] = [2]*big.Int{vi, vo}, [2]*big.Int{ei, eo} // later moves of the transaction overwrite earlier ones
+					}
+					cmpTx := func(kind string, gotM ledger.AccountsAssetsVolumes, want map[moveKey][2]*big.Int) (string, string) {
+						for k, w := range want {
+							g := gotM[k.acc][k.asset]
+							if g == nil || g.Input == nil || g.Output == nil || g.Input.Cmp(w[0]) != 0 || g.Output.Cmp(w[1]) != 0 {
+								return kind, fmt.Sprintf("ledger %s: transaction %s %s at %v: the read API reports %v for %s/%s, replaying the log gives input=%s output=%s", ldg, id, kind, pitStr(pit), g, k.acc, k.asset, w[0], w[1])
+							}
+						}
+						return "", ""
+					}
+					if k, w := cmpTx("tx-post-commit-volumes", got.PostCommitVolumes, wantPC); w != "" {
+						return k, w
+					}
+					if k, w := cmpTx("tx-post-commit-effective-volumes", got.PostCommitEffectiveVolumes, wantPCE); w != "" {
+						return k, w
+					}
+				}
+				if pit != nil {
+					nvis := 0
+					for _, id := range fold.TxIDs() {
+						if vis, _, _, _ := txAt(logs, id, pit); vis {
+							nvis++
+						}
+					}
+					opts := ledgerstore.NewPaginatedQueryOptions(ledgerstore.PITFilterWithVolumes{PITFilter: ledgerstore.PITFilter{PIT: pit}}).WithPageSize(100)
+					cur, err := s.GetTransactions(ctx, ledgerstore.NewGetTransactionsQuery(opts))
+					if err != nil {
+						return "read-error", fmt.Sprintf("GetTransactions at %s: %v", pitStr(pit), err)
+					}
+					if len(cur.Data) != nvis {
+						return "pit-list-transactions", fmt.Sprintf("ledger %s: GetTransactions as of %s lists %d transactions, %d have a timestamp up to that instant", ldg, pitStr(pit), len(cur.Data), nvis)
+					}
+					for _, t := range cur.Data {
+						if _, rev, md, _ := txAt(logs, t.ID.String(), pit); t.Reverted != rev || !metaEqual(t.Metadata, md) {
+							return "pit-list-transactions", fmt.Sprintf("ledger %s: GetTransactions as of %s lists transaction %s with reverted=%v metadata=%v, replaying the log entries up to that instant gives reverted=%v metadata=%v", ldg, pitStr(pit), t.ID, t.Reverted, t.Metadata, rev, md)
+						}
+					}
+					n, err := s.CountTransactions(ctx, ledgerstore.NewGetTransactionsQuery(opts))
+					if err != nil || n != nvis {
+						return "pit-count-transactions", fmt.Sprintf("ledger %s: CountTransactions as of %s = %d (%v), %d have a timestamp up to that instant", ldg, pitStr(pit), n, err, nvis)
+					}
+				}
+				// aggregated balances restricted to one account = that account's balances at the instant
+				for a := range accs {
+					if strings.ContainsAny(a, ":") {
+						continue
+					}
+					qb, _ := query.ParseJSON(fmt.Sprintf(`{"$match":{"address":%q}}`, a))
+					opts := ledgerstore.NewPaginatedQueryOptions(ledgerstore.PITFilter{PIT: pit}).WithQueryBuilder(qb)
+					got, err := s.GetAggregatedBalances(ctx, ledgerstore.NewGetAggregatedBalancesQuery(opts))
+					if err != nil {
+						return "read-error", "GetAggregatedBalances: " + err.Error()
+					}
+					want := map[string]*big.Int{}
+					for _, e := range exp {
+						if e.acc != a || (pit != nil && e.ins.After(pit.Time)) {
+							continue
+						}
+						if want[e.asset] == nil {
+							want[e.asset] = new(big.Int)
+						}
+						if e.isSource {
+							want[e.asset].Sub(want[e.asset], e.amt)
+						} else {
+							want[e.asset].Add(want[e.asset], e.amt)
+						}
+					}
+					for asset, w := range want {
+						if g := got[asset]; g == nil || g.Cmp(w) != 0 {
+							return "aggregated-balances", fmt.Sprintf("ledger %s: aggregated balance of %s in %s at %v is %v, replaying the log gives %s", ldg, a, asset, pitStr(pit), g, w)
+						}
+					}
 				}
 			}
 			n, err := s.CountAccounts(ctx, ledgerstore.NewGetAccountsQuery(ledgerstore.NewPaginatedQueryOptions(ledgerstore.PITFilterWithVolumes{})))
@@ -529,9 +811,9 @@ func c04() int {
 		return rep.Finish(evid.Coverage{"explanation": "schema not interpretable", "evaluations": 1, "distinct_nontrivial": 0})
 	}
 	ops := c04Ops(rep.Thorough())
-	depth := 4
+	depth, pitDepth := 4, 3
 	if rep.Thorough() {
-		depth = 5
+		depth, pitDepth = 5, 4
 	}
 	var states, transitions, unsupported int64
 	var samples evid.Samples
@@ -560,7 +842,7 @@ func c04() int {
 					continue
 				}
 				atomic.AddInt64(&states, 1)
-				kind, why := n.judge()
+				kind, why := n.judge(len(n.path) <= pitDepth)
 				if why != "" {
 					if strings.Contains(why, "pgmini: unsupported") {
 						atomic.AddInt64(&unsupported, 1)
@@ -586,12 +868,12 @@ func c04() int {
 		"traces_validated_against_impl": int(transitions),
 		"samples":                       samples.Got,
 		"exhaustive":                    true,
-		"rule":                          fmt.Sprintf("breadth-first exploration of every log history of length <= %d over %d log shapes on two ledgers sharing one bucket; each log is chained with the repository's constructors and inserted through the real ledgerstore.Store.InsertLogs into pgmini, an interpreter that executes the working tree's 0-init-schema.sql (PL/pgSQL triggers) and the SQL the Go store emits; in every state the moves / transactions tables and the Go read methods are compared with an independent fold of that ledger's log; states = histories reached, transitions = InsertLogs executed; plus %d read statements checked for a ledger predicate", depth, len(ops), nsql),
+		"rule":                          fmt.Sprintf("breadth-first exploration of every log history of length <= %d over %d log shapes on two ledgers sharing one bucket (point-in-time reads at every insertion midpoint and at 4 effective instants up to depth %d, current-state reads at every depth); each log is chained with the repository's constructors and inserted through the real ledgerstore.Store.InsertLogs into pgmini, an interpreter that executes the working tree's 0-init-schema.sql (PL/pgSQL triggers) and the SQL the Go store emits; in every state the moves / transactions tables and the Go read methods are compared with an independent fold of that ledger's log; states = histories reached, transitions = InsertLogs executed; plus %d read statements checked for a ledger predicate", depth, len(ops), pitDepth, nsql),
 		"validated_against_postgresql":  0,
 		"interpreter_unsupported_hits":  int(unsupported),
 		"violation_kinds":               kinds.M,
 	}
-	rep.Assume = []string{"pgmini's reading of PostgreSQL semantics (SPEC.md in /verif/xverif/lib/pgmini; no PostgreSQL server exists in the sandbox to validate it against)", "point-in-time / volumes variants of the list endpoints (LATERAL, CTE, DISTINCT ON, GROUP BY) are not executed; for them only the ledger-predicate (isolation) clause is checked"}
+	rep.Assume = []string{"pgmini's reading of PostgreSQL semantics (SPEC.md in /verif/xverif/lib/pgmini; no PostgreSQL server exists in the sandbox to validate it against)", "account volumes / effective volumes and aggregated balances are executed with and without a point in time (by insertion date resp. effective date); the point-in-time variants of the transaction listings and the volumes of listed accounts are not compared (only their ledger predicate is checked)"}
 	return rep.Finish(cov)
 }
 
@@ -601,4 +883,20 @@ func c04Culprit(path []string) string {
 		return ""
 	}
 	return path[len(path)-1]
+}
+
+
+func pitStr(t *ledger.Time) string {
+	if t == nil {
+		return "now"
+	}
+	return t.Time.UTC().Format(time.RFC3339Nano)
+}
+
+
+func pitOrMax(t *ledger.Time) time.Time {
+	if t == nil {
+		return time.Date(9999, 1, 1, 0, 0, 0, 0, time.UTC)
+	}
+	return t.Time
 }
